@@ -1240,6 +1240,7 @@ impl Puppet {
             conns: conns as u64,
             panics: Vec::new(),
             harness_error: None,
+            trace_tail: o.recent.iter().cloned().collect(),
         }
     }
 }
